@@ -2,6 +2,7 @@ import Tftp.Lemmas.SenderStep
 import Tftp.Model.Reassemble
 import Tftp.Props.C11
 import Tftp.Lemmas.Net
+import Tftp.Lemmas.NetTotal
 /-!
 # C01 — Download fidelity
 
@@ -142,5 +143,26 @@ theorem c01_closed_loop_no_corruption (sc : SCfg) (rc : RCfg) (hb : 0 < sc.b) (h
     (netRun sc rc fl fuel (netInit sc rc fl f)).r.status = .ok →
       (netRun sc rc fl fuel (netInit sc rc fl f)).r.win.file.content = f :=
   (closed_loop_safety sc rc hb hw1 hw hrb hrw fl f hN fuel).2
+
+end Tftp
+
+namespace Tftp
+
+/-- **the outcome of a download through a lossy network, any length**: for every file (no bound on the number of
+blocks), block size, window size and every schedule of lost and duplicated datagrams, the closed loop ends, and
+at its end the receiving side either holds a byte-identical copy and reports success, or reports failure - it
+never reports success with anything else -/
+theorem c01_closed_loop_outcome (sc : SCfg) (rc : RCfg) (hb : 0 < sc.b) (hw1 : 1 ≤ sc.w) (hw : sc.w < 65536)
+    (hrep : sc.rep = 1) (ht : 0 < sc.timeout) (hrb : rc.b = sc.b) (hrw : rc.w = sc.w) (hrrep : rc.rep = 1)
+    (fl : Faults) (f : Bytes) :
+    ∃ fuel,
+      ((netRun sc rc fl fuel (netInit sc rc fl f)).r.status = .ok ∧
+        (netRun sc rc fl fuel (netInit sc rc fl f)).r.win.file.content = f) ∨
+      (netRun sc rc fl fuel (netInit sc rc fl f)).r.status = .failed := by
+  obtain ⟨fuel, h⟩ := closed_loop_total sc rc ⟨⟨hb, hw1, hw, hrep, hrb, hrw, hrrep⟩, ht⟩ fl f
+  refine ⟨fuel, ?_⟩
+  rcases h with ⟨h1, h2, _⟩ | ⟨h1, _⟩
+  · exact Or.inl ⟨h1, h2⟩
+  · exact Or.inr h1
 
 end Tftp
